@@ -198,6 +198,35 @@ func VH_slice_EditScriptBig() {
 	vAssert(vIsSubseq(got, rhs), "LCS is a subsequence of the second argument")
 }
 
+// VH_slice_EditAfterPanic: state left behind by an interrupted call. A first
+// LCS computation is abandoned half way because the caller's equality function
+// panics (the caller recovers); a later EditScript must be unaffected.
+func VH_slice_EditAfterPanic() {
+	a, b := vMkInts(vCase("na")), vMkInts(vCase("na"))
+	calls, stop := 0, vChoice("panic-at", vCase("na")*vCase("na"))+1
+	panicked, _ := vPanics(func() {
+		LCSFunc(a, b, func(x, y int) bool {
+			calls++
+			if calls == stop {
+				panic("comparison failed")
+			}
+			return x == y
+		})
+	})
+	vAssert(panicked, "the comparison's panic propagates to the caller")
+	vCover("after-panic")
+	nl, nr := vCase("nl"), vCase("nr")
+	lhs, rhs := vMkInts(nl), vMkInts(nr)
+	es := EditScript(lhs, rhs)
+	want := 0
+	if len(es) > 0 {
+		want = vRefLCSLen(lhs, rhs)
+	}
+	vCheckScript(es, lhs, rhs, want)
+	got := LCS(lhs, rhs)
+	vAssert(len(got) == vRefLCSLen(lhs, rhs), "LCS has optimal length after an abandoned computation")
+}
+
 // vSpanInside reports whether x is a sub-slice of base's storage.
 func vSpanInside(x, base []int) bool {
 	if len(x) == 0 {
